@@ -2,6 +2,7 @@
  * the trusted base of that run (listed in the evidence file through the unit's extern list). */
 u32 x_bcmp(u8 *a, u8 *b, u64 n) { for (u64 i = 0; i < n; i++) if (a[i] != b[i]) return 1; return 0; }
 u32 x_memcmp(u8 *a, u8 *b, u64 n) { for (u64 i = 0; i < n; i++) if (a[i] != b[i]) return a[i] < b[i] ? (u32)-1 : 1; return 0; }
+u32 x_strncmp(u8 *a, u8 *b, u64 n) { for (u64 i = 0; i < n; i++) { if (a[i] != b[i]) return a[i] < b[i] ? (u32)-1 : 1; if (!a[i]) return 0; } return 0; }
 u64 x_strlen(u8 *a) { u64 n = 0; while (a[n]) n++; return n; }
 u8 *x_memchr(u8 *a, u32 c, u64 n) { for (u64 i = 0; i < n; i++) if (a[i] == (u8)c) return a + i; return 0; }
 /* allocation (failure is outside every claim) */
@@ -11,6 +12,9 @@ void x__ZdaPv(u8 *p) { free(p); }
 void x__ZdlPv(u8 *p) { free(p); }
 void x__ZdlPvm(u8 *p, u64 n) { free(p); }
 void x__ZSt9terminatev(void) { __VERIFIER_trap(); }
+/* std::uncaught_exceptions(): exceptions thrown and not yet caught, as counted by the lowered exception model */
+u32 x__ZSt19uncaught_exceptionsv(void) { return (u32)__exc_uncaught; }
+u8 x__ZSt18uncaught_exceptionv(void) { return __exc_uncaught > 0; }
 /* libstdc++ std::string helpers reached when a tao::pegtl::position (std::string source) is built from a const char* source */
 void x__ZSt19__throw_logic_errorPKc(u8 *msg) { __VERIFIER_trap(); }
 void x__ZSt20__throw_length_errorPKc(u8 *msg) { __VERIFIER_trap(); }
